@@ -984,6 +984,7 @@ const REQUIRED_PROBES: &[&str] = &[
     "json_api_via_value_ref",
     "sink_reentrant_formatting",
     "sink_reentrant_nested",
+    "sink_reentrant_with_spec",
     "sink_reentrant_depth_over_40",
     "json_reader_behind_bufreader",
     "history_before_checked_operation",
